@@ -78,8 +78,12 @@ func (r *run) syncEvent(as []*actor, e Ev) {
 	if e.Rd > 0 {
 		rc = r.readerJoin(f, e)
 	}
+	var jc *readerCall
+	if e.Join > 0 {
+		jc = r.joinCall(f, e, started)
+	}
 	var g *kernel.Rng
-	if len(calls) > 1 || e.S != 0 || len(e.Late) > 0 || rc != nil {
+	if len(calls) > 1 || e.S != 0 || len(e.Late) > 0 || rc != nil || jc != nil {
 		g = kernel.NewRng(e.S + 17)
 	}
 	if e.Req == "lost" && len(calls) == 1 {
@@ -164,6 +168,7 @@ func (r *run) syncEvent(as []*actor, e Ev) {
 		}
 	}
 	r.readerDone(rc)
+	r.joinDone(jc)
 	for _, c := range calls {
 		if c.state == "finished" && c.pre != nil {
 			r.checkErrorPacks(c)
